@@ -590,7 +590,20 @@ def replay(pid, path):
     sys.exit(0)
 
 
+def selfcheck():
+    """Unit tests of the explorer core and of the reference models (toy state space with a known size, bijective
+    index decoding, RFC examples, registry table sanity)."""
+    r = subprocess.run(["cargo", "test", "--offline", "-p", "mccore", "-p", "refmodel"], cwd=MC, env=ENV,
+                       stdout=subprocess.PIPE, stderr=subprocess.STDOUT, text=True)
+    ok = r.returncode == 0
+    log(f"[selfcheck] explorer + reference model unit tests: {'ok' if ok else 'FAILED'}")
+    if not ok:
+        log(r.stdout[-3000:])
+        sys.exit(2)
+
+
 def setup():
+    selfcheck()
     for cfg in CONFIGS:
         build(cfg)
     subprocess.run(["cargo", "build", "-p", "xcheck", "--offline", "--profile", "oc"], cwd=MC, env=ENV)
@@ -673,6 +686,8 @@ def main():
         return baseline_off()
     if a[0] == "manifest":
         return manifest()
+    if a[0] == "selfcheck":
+        return selfcheck()
     pid = a[0]
     if len(a) >= 3 and a[1] == "--replay":
         return replay(pid, a[2])
